@@ -150,7 +150,8 @@ func (x *wcExec) do(g string, op WCOp) {
 }
 
 func genWaitCondScenario(rng *rand.Rand, profile, mode string) any {
-	sc := &WCScenario{Profile: profile, NCtx: 2, RW: rng.Intn(4) == 0}
+	// (profile "excl": exclusive lockers only - the shared-locker finding D6 belongs to C05, not to the other legs)
+	sc := &WCScenario{Profile: profile, NCtx: 2, RW: rng.Intn(4) == 0 && profile != "excl"}
 	nd, nops := 3+rng.Intn(2), 1+rng.Intn(3)
 	if mode != "c" {
 		nd, nops = 3+rng.Intn(3), 2+rng.Intn(4)
